@@ -27,7 +27,7 @@ def describe(tier):
         "rule": "layer A: all sequences of well-formed frames (LEN-less STREAM/DATAGRAM only last) over the instance "
                 "alphabet, full alphabet to depth 2 and a reduced one-width alphabet to depth 3 (thorough: full "
                 "alphabet to depth 2, medium alphabet to depth 3); layer B: all byte strings of "
-                "length <= 4 over 40 symbols" + ("" if tier == "quick" else " and of length <= 3 over all 256 byte values") +
+                "length <= 4 over 40 symbols" + ("" if tier == "quick" else ", of length 5 over the same 40 symbols and of length <= 3 over all 256 byte values") +
                 ". non-trivial: a sequence of >= 2 frames / a byte string on which the parser returns frames; "
                 "distinct = distinct sequences / strings. states = nodes of the sequence tree, transitions = edges",
         "exhaustive": True,
@@ -66,6 +66,9 @@ def cases(tier, seed):
     if tier == "thorough":
         for a in range(256):
             yield {"layer": "B", "alpha": 256, "maxlen": 3, "first": a}
+        for a in range(len(SYMS40)):
+            for b in range(len(SYMS40)):
+                yield {"layer": "B", "alpha": 40, "maxlen": 5, "first": a, "second": b}
 
 
 class Hang(Exception):
@@ -230,9 +233,10 @@ def run_b(case, parse_frames, pkt):
     n = parsed = 0
     outcomes = set()
     sample = None
-    for ln in range(1, case["maxlen"] + 1):
-        for rest in itertools.product(syms, repeat=ln - 1):
-            data = bytes((first,) + rest)
+    second = case.get("second")
+    for ln in range(1 if second is None else 5, case["maxlen"] + 1):
+        for rest in itertools.product(syms, repeat=ln - 1 if second is None else ln - 2):
+            data = bytes((first,) + rest) if second is None else bytes((first, syms[second]) + rest)
             st, res = guarded_parse(parse_frames, data, pkt)
             n += 1
             if st == "hang":
